@@ -519,8 +519,12 @@ impl Object for Content {
         match p {
             Primitive::Array(arr) => {
                 for p in arr {
-                    let part = t!(ContentStream::from_primitive(p, resolve));
-                    parts.push(part);
+                    match ContentStream::from_primitive(p.clone(), resolve) {
+                        Ok(part) => parts.push(part),
+                        // an element that refers to a missing object is null: no content
+                        Err(ref e) if is_missing_reference(&p, e) => {}
+                        Err(e) => return Err(e)
+                    }
                 }
             }
             Primitive::Reference(r) => return Self::from_primitive(t!(resolve.resolve(r)), resolve),
